@@ -32,6 +32,12 @@ impl<T> MPMCSender<T> {
     pub fn verif_origin_shift(&self, base: usize) {
         self.sender.verif_queue().verif_origin_shift(base)
     }
+    pub fn verif_preload_retirements(&self, n: usize) {
+        self.sender.verif_queue().verif_preload_retirements(n)
+    }
+    pub fn verif_pending(&self) -> (usize, usize) {
+        self.sender.verif_queue().verif_pending()
+    }
 }
 
 impl<T> MPMCFutSender<T> {
@@ -43,6 +49,12 @@ impl<T> MPMCFutSender<T> {
     }
     pub fn verif_origin_shift(&self, base: usize) {
         self.sender.verif_queue().verif_origin_shift(base)
+    }
+    pub fn verif_preload_retirements(&self, n: usize) {
+        self.sender.verif_queue().verif_preload_retirements(n)
+    }
+    pub fn verif_pending(&self) -> (usize, usize) {
+        self.sender.verif_queue().verif_pending()
     }
     pub fn verif_parked(&self) -> (usize, usize) {
         self.sender.verif_parked()
